@@ -4,7 +4,7 @@
    The model (C12_Model: Connector + client side of TcpClient + the TcpConnection life cycle it touches) is tied to
    muduo/net/Connector.cc, TcpClient.cc by bin/check C12 (differential execution, regenerated facts Gen_C12/Gen_Consts). *)
 From Coq Require Import List ZArith Lia Bool Arith.
-From Muduo Require Import Gen_Consts Gen_C12 C12_Model C12_Hyg C12_Trace C12_Proofs.
+From Muduo Require Import Gen_Consts Gen_C12 C12_Model C12_Hyg C12_Trace C12_Inv C12_Proofs.
 Import ListNotations.
 Local Open Scope Z_scope.
 
@@ -66,6 +66,67 @@ Print Assumptions C12_one_up_per_cycle.
 Theorem C12_stop_silences : forall l s ev, run init l = Some (s, ev) -> silent_ok false ev.
 Proof. exact trace_silent. Qed.
 Print Assumptions C12_stop_silences.
+
+(* ---- histories under the hypothesis the property states, made precise (C12_Model.contract):
+        connect() only when Idle (state kDisconnected, no channel, no connection, no other connect() in flight,
+        no retry timer pending, delay at its initial value); timers `timely`; Down in loop order;
+        ~TcpClient on the loop thread, with a connection only while no functor of the Connector is queued.
+        `admissible init l`: every executed step of l satisfies the contract (rejected ops did not happen). *)
+
+(* destroy_safe_on_loop / crash freedom: no step of an admissible history is a Fault, i.e. no assert of
+   Connector / TcpClient / TcpConnection / Channel fails and nothing is called through a pointer to a destroyed
+   Connector, TcpClient (newConnection, removeConnection) or TcpConnection (shutdownInLoop) *)
+Theorem C12_destroy_safe_on_loop : forall l, admissible init l -> run init l <> None.
+Proof. exact no_fault. Qed.
+Print Assumptions C12_destroy_safe_on_loop.
+
+Theorem C12_step_safe : forall s o, reachable s -> contract s o = true -> step s o <> Fault.
+Proof. exact step_safe. Qed.
+Print Assumptions C12_step_safe.
+
+(* ... and leaves nothing behind: once the functor queue and the timer queue have drained and the user holds no
+   connection, the Connector is gone, every connection object is destroyed and has closed its descriptor, no socket is open *)
+Theorem C12_destroy_no_leak : forall s, reachable s ->
+  alive s = false -> pending s = [] -> timers s = [] -> (forall c o, nth_error (conns s) c = Some o -> cuser o = 0%nat) ->
+  k_dead s = true /\ k_chan s = None /\ connection s = None /\
+  (forall c o, nth_error (conns s) c = Some o -> calive o = false /\ nth_error (socks s) (csock o) = Some (HandedClosed 1)) /\
+  (forall i x, nth_error (socks s) i = Some x -> x <> Open).
+Proof. exact destroyed_quiescent. Qed.
+Print Assumptions C12_destroy_no_leak.
+
+(* back-off: every cycle starts at 500 ms and the k-th failed attempt of a cycle arms min(500 * 2^k, 30000) ms *)
+Theorem C12_backoff : forall l s ev, admissible init l -> run init l = Some (s, ev) -> backoff_ok 0 ev.
+Proof. exact backoff_admissible. Qed.
+Print Assumptions C12_backoff.
+
+(* reconnect iff retry_ && connect_: when the client's connection goes down, restart() (new cycle at 500 ms, new
+   attempt in the same step) exactly when both flags are set; otherwise the step reports DOWN and nothing else *)
+Theorem C12_retry_policy : forall s s' ev c o, reachable s -> contract s Down = true ->
+  find_down (conns s) 0 None = Some c -> nth_error (conns s) c = Some o -> ccb o = CbClient ->
+  step s Down = Ok s' ev ->
+  (c_retry s && c_connect s = true -> exists i e rest, ev = EvDown c :: EvWant :: EvCycle 500 :: EvAttempt i e :: rest) /\
+  (c_retry s && c_connect s = false -> exists g, ev = EvDown c :: g /\ Forall is_connclose g).
+Proof. exact retry_policy. Qed.
+Print Assumptions C12_retry_policy.
+
+(* disconnect() half-closes the current connection and touches nothing else (C03: shutdown()) *)
+Theorem C12_disconnect_graceful : forall s c o, user_api_ok s = true -> connection s = Some c ->
+  nth_error (conns s) c = Some o -> cst o = CConnected ->
+  exists s1, step_core s Disconnect = Some (Some (s1, [EvFin c])) /\
+    nth_error (conns s1) c = Some (c_set_fin true (c_set_st CDisconnecting o)) /\
+    connection s1 = Some c /\ c_connect s1 = false /\ pending s1 = pending s /\ timers s1 = timers s /\
+    k_state s1 = k_state s /\ k_chan s1 = k_chan s /\ k_connect s1 = k_connect s /\ socks s1 = socks s /\
+    (forall c', c' <> c -> nth_error (conns s1) c' = nth_error (conns s) c').
+Proof. exact disconnect_graceful. Qed.
+Print Assumptions C12_disconnect_graceful.
+
+(* an attempt that completes after stop() is closed, not handed over *)
+Theorem C12_stop_closes_completing_attempt : forall s i, k_chan s = Some (i, true) -> k_state s = KConnecting ->
+  k_dead s = false -> k_connect s = false ->
+  exists s1, step_core s (EvWritable 0 false) = Some (Some (s1, [EvClose i])) /\
+    nth_error (socks s1) i = option_map close_state (nth_error (socks s) i) /\ connection s1 = connection s /\ conns s1 = conns s.
+Proof. exact completes_after_stop_is_closed. Qed.
+Print Assumptions C12_stop_closes_completing_attempt.
 
 (* ---- the findings: what the property text allows and the code does not survive *)
 Theorem C12_stop_then_connect_refuted :
